@@ -113,4 +113,21 @@ example :
      | .ok m => decide (m.lists.map (fun g => (g.off, g.num, g.capPer)) = [(8, 127, 4096), (522776, 31, 16384)])
      | _ => false) = true := by decide
 
+
+/-! ### what the entry points must establish -/
+
+def _root_.Layout.Outcome.isOk {α : Type} : Outcome α → Bool
+  | .ok _ => true
+  | _ => false
+
+/-- The hypothesis of `c03_map_roundtrip` that the ENTRY POINTS have to establish: creator and peer lay out / walk the SAME
+    number of bytes - the creator the length it truncated the shared object to, the peer the length it reads from the
+    object. A creator that lays out more than the object has (the C03e seed: capacity rounded up to a page multiple after
+    the truncate) produces a layout the peer refuses: 1 MiB + 100 bytes, classes 64 and 256 -/
+example :
+    (match createBufferManager [⟨64, 50⟩, ⟨256, 50⟩] 1052672 with
+      | .ok m => (mappingBufferManager m 1052672).isOk && !(mappingBufferManager m 1048676).isOk
+      | _ => false) = true := by
+  decide
+
 end Props.C03
